@@ -90,8 +90,10 @@ def set_temporary_feature(rtdc_ds: RTDCBase,
     if isinstance(rtdc_ds, RTDC_Hierarchy):
         root_ids = map_indices_child2root(rtdc_ds, np.arange(len(rtdc_ds)))
         root_parent = rtdc_ds.get_root_parent()
-        root_feat_data = np.empty((len(root_parent)))
-        root_feat_data[:] = np.nan
+        data = np.asarray(data)
+        # same shape per event as `data` (non-scalar temporary features)
+        root_feat_data = np.full((len(root_parent),) + data.shape[1:],
+                                 np.nan)
         root_feat_data[root_ids] = data
         set_temporary_feature(root_parent, feature, root_feat_data)
         rtdc_ds.rejuvenate()
